@@ -47,6 +47,45 @@ Theorem C21_parse_in_valid : forall s p, parse_in s = Some p -> period_valid p =
 Proof. exact parse_in_valid. Qed.
 Print Assumptions C21_parse_in_valid.
 
+(* ================================================================== the engine's own code (transcribed in Model/Period.v Part 2, tied on every run) *)
+(* vtl_period_normalize maps EVERY documented spelling of a valid period to the canonical form: every year 0..9999.
+   (Proof: the macro is run on every (indicator, number, spelling) with the four year characters left symbolic.) *)
+Theorem C21_sql_normalize_ok : forall p s, period_valid p = true -> 0 <= p_year p <= 9999 ->
+  In s (spellings p) -> period_normalize_impl s = SOk (canonical p).
+Proof. exact period_normalize_impl_ok. Qed.
+Print Assumptions C21_sql_normalize_ok.
+
+(* the four vtl_period_to_<format> macros on the canonical string give the documented representation, and the error exactly when the
+   format cannot express the indicator: every year 0..9999 *)
+Theorem C21_sql_render_ok : forall f p, period_valid p = true -> 0 <= p_year p <= 9999 ->
+  render_impl f (canonical p) = match render f p with Some s => SOk s | None => SErr end.
+Proof. exact render_impl_ok. Qed.
+Print Assumptions C21_sql_render_ok.
+
+(* vtl_period_to_string (struct -> string) is the canonical form from year 1000 on ... *)
+Theorem C21_sql_to_string_ok : forall p, period_valid p = true -> 1000 <= p_year p <= 9999 -> period_to_string_impl p = canonical p.
+Proof. exact period_to_string_impl_ok. Qed.
+Print Assumptions C21_sql_to_string_ok.
+
+(* ... and the Python renderers / __str__ give the documented forms from year 1000 on; Python and SQL then agree *)
+Theorem C21_py_render_ok : forall f p, period_valid p = true -> 1000 <= p_year p <= 9999 ->
+  py_render f p = match render f p with Some s => CkOk s | None => CkErr "2-1-19-21" end /\ py_str p = canonical p.
+Proof. intros f p V Y. split; [apply py_render_ok; assumption | apply py_str_canonical; assumption]. Qed.
+Print Assumptions C21_py_render_ok.
+
+Theorem C21_py_sql_render_agree : forall f p, period_valid p = true -> 1000 <= p_year p <= 9999 ->
+  py_render f p = sres_ck (render_impl f (period_to_string_impl p)).
+Proof. exact py_sql_render_agree. Qed.
+Print Assumptions C21_py_sql_render_agree.
+
+(* below year 1000 the statement is false for the engine: f"{year}" / CAST(year AS VARCHAR) do not pad (witness 0001-M01) *)
+Theorem C21_low_year_refuted :
+  (exists p, period_valid p = true /\ 0 <= p_year p <= 9999 /\
+             py_render FVtl p <> match render FVtl p with Some s => CkOk s | None => CkErr "2-1-19-21" end /\ py_str p <> canonical p) /\
+  (exists p, period_valid p = true /\ period_to_string_impl p <> canonical p /\ period_parse_impl (period_to_string_impl p) = None).
+Proof. split; [exact py_render_low_year_refuted | exact period_to_string_low_year_refuted]. Qed.
+Print Assumptions C21_low_year_refuted.
+
 Example C21_hypotheses_satisfiable :
   period_valid (mkP 2020 ID 60) = true /\ In "2020-02-29"%string (spellings (mkP 2020 ID 60)) /\
   render FNatural (mkP 2020 ID 60) = Some "2020-02-29"%string /\ render FGregorian (mkP 2020 IQ 1) = None /\
